@@ -11,28 +11,26 @@ def region(name):
 
 # ---- C13: util.adjust_intervals (inputs: {"intervals": [[s,e],...], "labels": [...], "t_min": x|None, "t_max": x|None})
 
-@region("adjust_zero_length")
-def adjust_zero_length(inp):
-    """complement of the hypotheses of Mir.C13.adjust_posdur_partial: an input interval ends exactly at t_min,
-    or starts exactly at t_max, or no interval ends after t_min (all intervals lie before t_min)."""
+@region("adjust_all_before_tmin")
+def adjust_all_before_tmin(inp):
+    """complement of the hypothesis of Mir.C13.adjust_posdur_partial: no input interval ends after t_min
+    (every interval lies before t_min; nothing is cropped and np.maximum collapses them to zero length).
+    An interval that merely ends at t_min / starts at t_max is no longer in this region (repaired by b04f12e)."""
     iv = inp["intervals"]
-    a, b = inp["t_min"], inp["t_max"]
-    if a is not None and (any(e == a for _, e in iv) or not any(e > a for _, e in iv)):
-        return True
-    if b is not None and any(s == b for s, _ in iv):
-        return True
-    return False
+    a = inp["t_min"]
+    return a is not None and not any(e > a for _, e in iv)
 
 
 @region("adjust_gap_straddle")
 def adjust_gap_straddle(inp):
-    """complement of the hypotheses of Mir.C13.adjust_labelAt_partial: t_min or t_max lies strictly inside an
-    internal gap (after the end of one input interval and before the start of the next)."""
+    """complement of the hypotheses of Mir.C13.adjust_labelAt_partial (NoStraddleMin t_min, NoStraddleMax t_max):
+    t_min cuts an internal gap [e, s') with e <= t_min < s', or t_max cuts one with e < t_max <= s'
+    (an interval ending exactly at t_min / starting exactly at t_max is dropped, which exposes the gap next to it)."""
     iv = inp["intervals"]
-    for t in (inp["t_min"], inp["t_max"]):
-        if t is None:
-            continue
-        for (_, e0), (s1, _) in zip(iv[:-1], iv[1:]):
-            if e0 < t < s1:
-                return True
+    a, b = inp["t_min"], inp["t_max"]
+    for (_, e0), (s1, _) in zip(iv[:-1], iv[1:]):
+        if a is not None and e0 <= a < s1:
+            return True
+        if b is not None and e0 < b <= s1:
+            return True
     return False
